@@ -76,6 +76,69 @@ theorem power_klen_mean (s : K) (r : Nat) (hr : 0 < r) : s / (r : K) * (r : K) =
 theorem natural_binning_nonempty (u : List K) (hs : u.Pairwise (· < ·)) (j : Nat) (hj : j < u.length) :
     searchsortedLeft (midpoints u) u[j] = j := midpoints_count u hs j hj
 
+/-- linear bin bounds (`np.linspace(first, last, nbin-1)`) are strictly increasing, start at `first` and end at `last`;
+    logarithmic bounds are their image under the strictly increasing `exp` — so for both, `pindex_partition` applies -/
+theorem linear_binbounds_sorted (nbin : Nat) (first last : K) (hn : 3 ≤ nbin) (h : first < last) :
+    (linearBounds nbin first last).Pairwise (· < ·) ∧
+    (linearBounds nbin first last).head? = some first ∧ (linearBounds nbin first last).getLast? = some last :=
+  ⟨linear_bounds_sorted nbin first last hn h, linear_bounds_ends nbin first last hn⟩
+
+theorem log_binbounds_sorted (f : K → K) (hf : StrictMono f) (b : List K) (hb : b.Pairwise (· < ·)) :
+    (b.map f).Pairwise (· < ·) := mapped_bounds_sorted f hf b hb
+
+/-- DOFSpace / any non-uniform volume: the total volume is the sum of the pixel volumes, and a bin partition preserves it:
+    summing the member volumes bin by bin gives the total (used by DOFDistributor's bin weights) -/
+theorem dof_volume_partition (nbin : Nat) (idx : List Nat) (w : List K) (hlen : idx.length = w.length)
+    (h : ∀ i ∈ idx, i < nbin) : ((List.range nbin).map fun b =>
+      (((List.zip idx w).filter fun p => p.1 == b).map (·.2)).sum).sum = w.sum := by
+  induction idx generalizing w with
+  | nil => cases w <;> simp_all
+  | cons i is_ ih =>
+    cases w with
+    | nil => simp at hlen
+    | cons x xs =>
+      have hi := h i List.mem_cons_self
+      have ih' := ih xs (by simpa using hlen) (fun j hj => h j (List.mem_cons_of_mem _ hj))
+      have e : ((List.range nbin).map fun b => (((List.zip (i :: is_) (x :: xs)).filter fun p => p.1 == b).map (·.2)).sum) =
+          List.zipWith (· + ·) ((List.range nbin).map fun b => if i = b then x else 0)
+            ((List.range nbin).map fun b => (((List.zip is_ xs).filter fun p => p.1 == b).map (·.2)).sum) := by
+        rw [List.zipWith_map_left, List.zipWith_map_right]
+        simp only [List.zipWith_self, List.map_map]
+        apply List.map_congr_left
+        intro b _
+        by_cases hb : i = b <;> simp [List.filter_cons, hb]
+      rw [e]
+      have hz : ∀ (l1 l2 : List K), l1.length = l2.length → (List.zipWith (· + ·) l1 l2).sum = l1.sum + l2.sum := by
+        intro l1
+        induction l1 with
+        | nil => intro l2 h; cases l2 <;> simp_all
+        | cons a as iha =>
+          intro l2 h
+          cases l2 with
+          | nil => simp at h
+          | cons c cs => simp [iha cs (by simpa using h)]; ring
+      rw [hz _ _ (by simp), ih', List.sum_cons]
+      congr 1
+      have : ∀ n, i < n → ((List.range n).map fun b => if i = b then x else 0).sum = x := by
+        intro n
+        induction n with
+        | zero => intro h; omega
+        | succ k ihk =>
+          intro hk
+          rw [List.range_succ, List.map_append, List.sum_append]
+          by_cases hik : i = k
+          · subst hik
+            have : ((List.range i).map fun b => if i = b then x else 0).sum = 0 := by
+              apply List.sum_eq_zero
+              intro y hy
+              rw [List.mem_map] at hy
+              obtain ⟨b, hb, rfl⟩ := hy
+              have : i ≠ b := by rw [List.mem_range] at hb; omega
+              simp [this]
+            simp [this]
+          · simp [ihk (by omega), hik]
+      exact this nbin hi
+
 end power
 
 section identity
